@@ -4,6 +4,9 @@ import (
 	"context"
 	"errors"
 	"fmt"
+	"runtime"
+	"strings"
+
 	skywaykeeper "github.com/palomachain/paloma/v2/x/skyway/keeper"
 	"verifsim/core"
 )
@@ -20,8 +23,10 @@ var faultMethods = []string{
 type faultPlan struct {
 	armed  bool
 	method string
-	k      int // fail the k-th call (1-based) of method in the block
+	k      int  // fail the k-th call (1-based) of method in the block
+	outage bool // fail every call of method from the k-th on (the collaborator is down for the whole block)
 	panic  bool
+	sites  []string // skyway functions in which a failure was injected
 	count  map[string]int
 	fired  bool
 	// Calls logs every intercepted call of the armed block
@@ -34,14 +39,32 @@ func (f *faultPlan) hook(_ context.Context, method string) error {
 	}
 	f.count[method]++
 	f.Calls = append(f.Calls, method)
-	if method == f.method && f.count[method] == f.k && !f.fired {
+	if method == f.method && (f.count[method] == f.k && !f.fired || f.outage && f.count[method] > f.k) {
 		f.fired = true
+		f.sites = append(f.sites, callerInSkyway())
 		if f.panic {
 			panic(fmt.Sprintf("verif: injected panic in %s (call %d)", method, f.k))
 		}
 		return errors.New("verif: injected failure in " + method)
 	}
 	return nil
+}
+
+// callerInSkyway names the skyway keeper function that made the intercepted call (reach probe; deterministic).
+func callerInSkyway() string {
+	pcs := make([]uintptr, 24)
+	n := runtime.Callers(3, pcs)
+	frames := runtime.CallersFrames(pcs[:n])
+	for {
+		fr, more := frames.Next()
+		if strings.Contains(fr.Function, "x/skyway/keeper") && !strings.Contains(fr.File, "verif_hook") {
+			name := fr.Function[strings.LastIndex(fr.Function, "/")+1:]
+			return strings.TrimPrefix(name, "keeper.")
+		}
+		if !more {
+			return "?"
+		}
+	}
 }
 
 func c01(r *core.Run) []*core.Violation {
@@ -79,8 +102,10 @@ func c01(r *core.Run) []*core.Violation {
 		w.abortNote("C01")
 		return nil
 	}
+	lag := int64([]int{0, 0, 2, 6}[t.Intn(4)])
 	for _, p := range w.Pigeons {
 		p.EagerConfirm = t.Draw(2) == 1
+		p.BatchEstimateLag = lag
 	}
 	var viols []*core.Violation
 	nBlocks := 70 + t.Intn(90)
@@ -89,9 +114,19 @@ func c01(r *core.Run) []*core.Violation {
 		w.RandomGovernance()
 		// collaborator fault for this block
 		fp.armed = false
-		if faulty && t.Chance(1, 6) {
+		// faults are biased towards blocks with in-flight state: open batches (relay, timeout, cancel) and batch-build heights
+		den := uint64(6)
+		if w.OpenBatches > 0 || (w.N.Height+1)%50 == 0 {
+			den = 3
+		}
+		if faulty && t.Chance(1, den) {
 			fp.method = faultMethods[t.Intn(len(faultMethods))]
 			fp.k = 1 + t.Intn(3)
+			if t.Draw(4) == 3 {
+				fp.k = 1 + t.Intn(12)
+			}
+			fp.outage = t.Draw(3) == 2
+			fp.sites = nil
 			fp.panic = t.Draw(8) == 7
 			fp.count = map[string]int{}
 			fp.fired = false
@@ -108,6 +143,12 @@ func c01(r *core.Run) []*core.Violation {
 			}
 			r.Stats.Fault("collaborator_" + mode)
 			r.Stats.Fault("fault@" + fp.method)
+			if fp.outage {
+				r.Stats.Fault("collaborator_outage_block")
+			}
+			for _, site := range fp.sites {
+				r.Stats.Probe("fault_in:" + site)
+			}
 			r.Trace.Event("fault", "%s call=%d %s h=%d", fp.method, fp.k, mode, w.N.Height)
 		}
 		fp.armed = false
